@@ -10,7 +10,9 @@
    (f) synclock is C04's model [lstep ... KSync], imported read-only by ProofsSync.v.
    Message contents are abstracted away; cursors, counts, the order of check / sleep / store /
    wake and which value is handed to the futex are transcribed from the C code.
-   Futex: wait = atomic compare-and-block; wake_one wakes the lowest blocked thread id
+   Futex: wait = atomic compare-and-block, which may also return early without blocking
+   (interrupted / spurious wake-up: schedule choices 2 / 3 on the waiting thread, models (a), (c));
+   wake_one wakes the lowest blocked thread id
    (harness/vsched), wake_all every blocked thread.  Condition variables: Mesa; a wait releases
    the mutex and sleeps; notify_one moves ONE sleeping waiter (schedule choice) to "woken";
    a sleeping waiter may also wake spuriously (schedule choice 1 on the sleeper); a woken
@@ -128,7 +130,13 @@ Definition fstep (s : fsys) (t : nat) (ch : nat) : option (fsys * label) :=
     (* expected = the CHECKED value (the register loaded before the comparison) *)
     let expected := f_reg x in
     if f_wcur s =? expected
-    then Some (go FRBlocked, ev OFwait fc_wcur MoNone expected (f_wcur s) 1)
+    then
+      (* the wait would block.  Schedule choice 2: the futex call is interrupted (returns -1 /
+         EINTR); choice 3: it returns 0 although nobody woke it (spurious wake-up).  The code
+         ignores the return value and re-checks in its loop, exactly as after a real wake-up. *)
+      if Nat.eqb ch 2 then Some (go FRSeg, ev OFwait fc_wcur MoNone expected (f_wcur s) 2)
+      else if Nat.eqb ch 3 then Some (go FRSeg, ev OFwait fc_wcur MoNone expected (f_wcur s) 3)
+      else Some (go FRBlocked, ev OFwait fc_wcur MoNone expected (f_wcur s) 1)
     else Some (go FRSeg, ev OFwait fc_wcur MoNone expected (f_wcur s) 0)
   | FRBlocked => None
   (* ---- writer ---- *)
@@ -392,7 +400,12 @@ Definition gstep (s : gsys) (t : nat) (ch : nat) : option (gsys * label) :=
   | GRWait =>
     let expected := g_reg x in
     if g_cursor s =? expected
-    then Some (go GRBlocked, ev OFwait gc_cursor MoNone expected (g_cursor s) 1)
+    then
+      (* would block: choice 2 = interrupted (EINTR), choice 3 = spurious wake-up; the return
+         value is ignored and the loop re-checks (read-once: still holding read_mutex) *)
+      if Nat.eqb ch 2 then Some (go GRSeg1, ev OFwait gc_cursor MoNone expected (g_cursor s) 2)
+      else if Nat.eqb ch 3 then Some (go GRSeg1, ev OFwait gc_cursor MoNone expected (g_cursor s) 3)
+      else Some (go GRBlocked, ev OFwait gc_cursor MoNone expected (g_cursor s) 1)
     else Some (go GRSeg1, ev OFwait gc_cursor MoNone expected (g_cursor s) 0)
   | GRBlocked => None
   | GRUnlock =>
